@@ -5,9 +5,9 @@ src="$1"; sid="$2"; pid="$3"
 wt=/tmp/wt/verify_$sid; dd=/tmp/demo_verify_$sid
 rm -rf "$dd"; mkdir -p "$dd"
 git -C /repo worktree add -q --detach "$wt" HEAD || exit 2
-/tmp/tools/mkenv.sh "$dd" >/dev/null
+[ -n "$NOENV" ] || /tmp/tools/mkenv.sh "$dd" >/dev/null
 ( cd "$dd" && PYTHONPATH="$wt" timeout 300 /venv/bin/python "$src/demo.py" >"$dd/head.out" 2>&1 ); rc_head=$?
-rm -rf "$dd"; mkdir -p "$dd"; /tmp/tools/mkenv.sh "$dd" >/dev/null
+rm -rf "$dd"; mkdir -p "$dd"; [ -n "$NOENV" ] || /tmp/tools/mkenv.sh "$dd" >/dev/null
 if ! git -C "$wt" apply "$src/patch.diff"; then echo "$sid: PATCH DOES NOT APPLY"; git -C /repo worktree remove --force "$wt"; exit 3; fi
 ( cd "$dd" && PYTHONPATH="$wt" timeout 300 /venv/bin/python "$src/demo.py" >"$dd/mut.out" 2>&1 ); rc_mut=$?
 /venv/bin/python -m compileall -q "$wt/csvpath" >/dev/null; rc_comp=$?
